@@ -129,8 +129,8 @@ def main():
         if rc != 0:
             result = 'nocompile'
         else:
+            # only the checks mapped to the file (a survivor would otherwise cost all 18 checks)
             order = FILES[f].split()
-            order += [c for c in ALL if c not in order]
             for c in order:
                 rc, out = sh('%s/harness/target/release/vcheck %s' % (S, c), env=env, timeout=1800)
                 if rc == 1:
